@@ -52,14 +52,25 @@ pub fn explore(opts: &Opts) -> Explored {
             lists.push(t);
         }
     }
+    // a few long lists (a capacity or block size in the optimizer would only show here)
+    for len in [9usize, 17, 33] {
+        lists.push((0..len).map(|k| (k * 2 + 1) % pool.len()).collect());
+    }
     let local = par(opts, lists.len(), |i, l| {
         let list = &lists[i];
         let n = list.len();
         l.states += 1;
         for family in 0..2u8 {
             for &lr in &lrs {
-                for s1 in 0u32..(1 << n) {
-                    for s2 in 0u32..(1 << n) {
+                // long lists: a fixed selection of subsets instead of all of them
+                let subsets: Vec<u32> = if n <= 4 {
+                    (0u32..(1 << n)).collect()
+                } else {
+                    let all = if n >= 32 { u32::MAX } else { (1u32 << n) - 1 };
+                    vec![all, all & 0x5555_5555, all & 0xAAAA_AAAA, all & !1, all & !(1 << (n.min(31) - 1)), all & 0x0F0F_0F0F]
+                };
+                for &s1 in &subsets {
+                    for &s2 in &subsets {
                         let case = || {
                             format!(
                                 "params={} family={} lr={} grads1={:0w$b} grads2={:0w$b} untracked_frozen={}",
@@ -98,7 +109,7 @@ pub fn explore(opts: &Opts) -> Explored {
                             for (round, subset) in [s1, s2].iter().enumerate() {
                                 // install gradients
                                 for k in 0..n {
-                                    if subset & (1 << k) == 0 {
+                                    if k >= 32 || subset & (1 << k) == 0 {
                                         continue;
                                     }
                                     let d = params[k].dimensions().to_vec();
